@@ -38,7 +38,8 @@ LEVEL_NOTE = 'Vincenty accuracy (~0.1 mm) and float arithmetic bound the toleran
 TECHNIQUE = 'differential oracle (independent Vincenty geodesics) on return values'
 
 KINDS = ['random', 'antimeridian', 'polar', 'near-antipodal', 'same-longitude',
-         'same-latitude', 'short', 'equator', 'whole-degrees', 'on-the-180th-meridian']
+         'same-latitude', 'short', 'equator', 'whole-degrees', 'on-the-180th-meridian',
+         'exactly-antipodal', 'longitude-0-360']
 
 
 def plan(tier, seed):
@@ -93,6 +94,18 @@ def gen_pair(rng, kind):
         if b[1] == -lo and abs(a[0] - b[0]) < 1e-3:
             b = (b[0] + 1.0, b[1])
         return (a[0], a[1], b[0], b[1]) if rng.random() < 0.5 else (b[0], b[1], a[0], a[1])
+    if kind == 'exactly-antipodal':
+        # the geodesic is not unique: whichever one the track picks, every point of the track
+        # must lie on THAT one (closure oracle)
+        la, lo = float(rng.randint(-80, 80)) or 10.0, float(rng.randint(-179, 179))
+        if rng.random() < 0.5:
+            la, lo = rng.uniform(-80, 80), rng.uniform(-179, 179)
+        lo2 = lo + 180.0 if lo <= 0 else lo - 180.0
+        return (la, lo, -la, lo2)
+    if kind == 'longitude-0-360':
+        # longitudes written in the 0..360 convention
+        a = gen_pair(rng, rng.choice(['random', 'antimeridian', 'short']))
+        return (a[0], a[1] % 360.0, a[2], a[3] % 360.0)
     if kind == 'whole-degrees':
         # way-points typed in by hand: small whole numbers of degrees (also 0, -1, -2)
         while True:
